@@ -194,6 +194,7 @@ def dedupe_overlaps(p, reqs):
 class Run:
     def __init__(self):
         self.findings = []   # (prop, Disc)
+        self.results = None
         self.classes = set()
         self.stats = {}
 
@@ -346,6 +347,7 @@ def _run_read(run, p, tgt, plc, reqs, forced_status):
     res = check_results_shape(run, "read", reqs, res)
     if res is None:
         return
+    run.results = res
     for r, tag in zip(reqs, res):
         name = render(r)
         if r.get("invalid"):
@@ -387,6 +389,7 @@ def _run_write(run, p, tgt, plc, reqs, forced_status, want_readback):
     res = check_results_shape(run, "write", reqs, res)
     if res is None:
         return
+    run.results = res
     expected_svcs = []
     rmw_words = set()
     succeeded = []
